@@ -18,6 +18,23 @@ def warm() -> None:
 
 
 def generate(rng, tier) -> dict:
+    sc = _generate(rng, tier)
+    if rng.random() < (0.004 if tier == "quick" else 0.01):
+        # a diagnostic-plot sized cube (millions of samples): block-wise code paths inside an update only exist there
+        sc["nints"], sc["nbands"], sc["nbins"] = rng.choice([(64, 64, 512), (128, 128, 128), (40, 60, 1024), (300, 8, 1024)])
+        sc["nchans_per_band"] = 1
+        sc["layout"] = rng.choice(["C", "C", "F"])
+        sc["data"] = "arange"
+        kind = rng.choice(["period", "period", "period", "dm"])
+        keep = [o for o in sc["ops"] if o["k"] == kind][:2]
+        first = {"k": "period", "v": sc["fold_period"] * (1 + rng.choice([1, -1]) * (9e-6 if sc["nsamples"] > 1000000 else 7e-4))} if kind == "period" \
+            else {"k": "dm", "v": sc["fold_dm"] + rng.choice([0.5, 3.0, 7.25])}
+        sc["ops"] = [first] + keep
+        sc["large"] = True
+    return sc
+
+
+def _generate(rng, tier) -> dict:
     nints, nbands, nbins = rng.randint(1, 6), rng.randint(1, 6), rng.choice([2, 4, 8, 16, 32, rng.randint(2, 32)])
     fold_dm = rng.choice([0.0, 10.0, 56.75])
     fold_p = rng.choice([0.1, 0.0333, 1.2345])
@@ -160,6 +177,8 @@ def execute(sc, ctx) -> None:
     twin, _ = make_cube(sc, ctx, "C")  # same values, C-contiguous, same history: the memory layout must not matter
     if layout != "C":
         ctx.probe("non-contiguous-cube")
+    if sc.get("large"):
+        ctx.probe("cube-of-millions-of-samples")
     if sc.get("data") == "zero-sum":
         ctx.probe("profiles-summing-to-exactly-zero")
     if sc.get("header_dm", 0.0) != sc["fold_dm"]:
